@@ -87,28 +87,52 @@ SINKS = [("out", None), ("reshape_x", 1), ("reshape_x_az", 1), ("expand_x", 1), 
          ("cos_cast", 1), ("range", 0), ("add_x", None), ("reshape_x_out2", 1), ("expand_y", 1)]
 
 
-def drv_chain_factory(max_len, full_first):
+SINK_BY = dict(SINKS)
+# per chain length: (x kinds, sources, alphabets per position, sinks); everything listed is enumerated completely
+TIERS = {
+    "quick": {
+        0: dict(x=[0, 1, 2, 3, 4, 5], src=list(range(len(SOURCES))), ops=[], sinks=[s for s, _ in SINKS]),
+        1: dict(x=[0, 1, 3], src=list(range(len(SOURCES))), ops=["ALL"], sinks=["out", "reshape_x", "expand_x", "cos", "range"]),
+        "1w": dict(x=[0], src=list(range(len(SOURCES))), ops=["ALL"],
+                   sinks=["reshape_x_az", "expand_c", "cos_cast", "add_x", "reshape_x_out2", "expand_y"]),
+        2: dict(x=[0], src=[0, 1, 3, 7], ops=["ALL", "CORE"], sinks=["out"]),
+        "2r": dict(x=[0], src=[0, 1], ops=["CORE", "CORE"], sinks=["reshape_x", "expand_x"]),
+    },
+    "thorough": {
+        0: dict(x=[0, 1, 2, 3, 4, 5], src=list(range(len(SOURCES))), ops=[], sinks=[s for s, _ in SINKS]),
+        1: dict(x=[0, 1, 2, 3, 4, 5], src=list(range(len(SOURCES))), ops=["ALL"], sinks=[s for s, _ in SINKS]),
+        2: dict(x=[0, 1, 3], src=[0, 1, 2, 3, 7, 8], ops=["ALL", "CORE"], sinks=["out", "reshape_x", "expand_x"]),
+        "2w": dict(x=[0, 2], src=[0, 1, 3, 7], ops=["CORE", "ALL"], sinks=["out", "reshape_x", "expand_x"]),
+        3: dict(x=[0], src=[0, 1, 3, 7], ops=["CORE", "CORE", "CORE"], sinks=["out", "reshape_x"]),
+    },
+}
+
+
+def drv_chain_factory(tier):
+    groups = TIERS[tier]
+
     def drv(ch):
-        xk = ch.all("x", list(range(len(XKINDS))))
-        src = ch.all("source", list(range(len(SOURCES))))
-        n = ch.all("len", list(range(max_len + 1)))
+        gname = ch.all("group", list(groups))
+        g = groups[gname]
+        xk = ch.all("x", g["x"])
+        src = ch.all("source", g["src"])
         rank = 0 if SOURCES[src][0] == "Size" else 1
         ops = []
-        for j in range(n):
-            alphabet = [s[0] for s in SOPS] if (j == 0 and full_first) or n == 1 else CORE
-            lab = ch.all(f"op{j}", alphabet)
+        for j, alpha in enumerate(g["ops"]):
+            lab = ch.all(f"op{j}", [s[0] for s in SOPS] if alpha == "ALL" else CORE)
             s = SOP_BY[lab]
             if s[4] is not None and s[4] != rank:
                 raise explore.Prune()
             rank = rank if s[5] == "=" else s[5]
             ops.append(lab)
-        sink, need = ch.all("sink", SINKS)
+        sink = ch.all("sink", g["sinks"])
+        need = SINK_BY[sink]
         if need is not None and need != rank:
             raise explore.Prune()
         yk = None
         if SOURCES[src][0] == "ShapeY" or sink == "expand_y":
-            yk = ch.all("y", list(range(len(YKINDS))))
-        vi = ch.choose("value_info", [False, True])
+            yk = ch.all("y", list(range(len(YKINDS))) if tier != "quick" else [0, 1, 3])
+        vi = ch.choose("value_info", [False, True]) if len(ops) <= 1 else False
         return dict(fam="chain", x=xk, y=yk, source=src, ops=ops, sink=sink, vi=vi, api="optimize")
     return drv
 
@@ -399,10 +423,10 @@ def plan(tier, seed):
     fam = {}
     items = []
     if tier == "quick":
-        items += optplan._run(drv_chain_factory(2, True), 0, fam, "chain")
+        items += optplan._run(drv_chain_factory("quick"), 0, fam, "chain")
         items += optplan._run(drv_data, 0, fam, "data")
     else:
-        items += optplan._run(drv_chain_factory(3, True), 1, fam, "chain")
+        items += optplan._run(drv_chain_factory("thorough"), 1, fam, "chain")
         items += optplan._run(drv_data, 1, fam, "data")
     stats = dict(states=sum(x["states"] for x in fam.values()), transitions=sum(x["transitions"] for x in fam.values()),
                  leaves=sum(x["leaves"] for x in fam.values()), pruned=sum(x["pruned"] for x in fam.values()),
@@ -520,7 +544,13 @@ def _execute(item):
         n_adm = r2.get("admitted", 0)
         cls = "all-admitted-bindings" if len(r2["c03"]) >= n_adm else "some-bindings"
         shape_sig = ">".join(n["op"] for n in spec2["nodes"])
-        key = f"C09|not-equivalent|{comp}|{dsig}|{shape_sig}|{cls}"
+        p = small.get("p") or {}
+        if small.get("tmpl") == "split_seq" and p.get("split") is not None and p.get("keepdims") == 0:
+            key = "C09|not-equivalent|fold|split_to_sequence|keepdims=0-with-split-input"
+        elif str(comp).startswith("rule:"):
+            key = f"C09|not-equivalent|{comp}|{v.get('symptom')}|{cls}"
+        else:
+            key = f"C09|not-equivalent|{comp}|{dsig}|{shape_sig}|{cls}"
         viols.append({"key": key, "detail": {"case": label, "minimised": _label(small), "failing_bindings": [dict(b) for b in failing][:30],
                                              "n_failing_runs": len(r2["c03"]), "admitted_runs": n_adm,
                                              "first": {k: v.get(k) for k in ("symptom", "detail", "bind", "k", "expected", "got")}}})
